@@ -29,7 +29,9 @@ struct op_rec { int kind; int done; int ec; int rc; int rcs[3]; int nrcs; bool i
 struct msg_rec { int ec; uint8_t topic0, topic1; uint8_t payload0, payload1; uint32_t tlen, plen; bool has_exp; uint32_t exp; int nprops; };
 
 struct W {
-  client_t c { vk::executor{} };
+  client_t* cp = new client_t(vk::executor{});
+  client_t& c = *cp;
+  void destroy_client() { in_api = true; delete cp; cp = nullptr; in_api = false; }
   // ---- broker side
   int epoch = 0;                 // number of successfully established TCP connections
   bool connack_sent = false;     // in the current epoch
